@@ -24,7 +24,7 @@
 (*                  RCPT (scripted to succeed)                             *)
 (*   Data, BodyRet  BodyNonAtomic: DATA on the connection                 *)
 (*   Commit         remoteDelivery.Close: return the connection           *)
-(* Observable steps (StartMsg, Connect, Ret*, Data, Finish) correspond    *)
+(* Observable steps (StartMsg, Lookup, Connect, Ret*, Data, Finish) correspond *)
 (* one-to-one to recorded events; the others are silent.                  *)
 (*                                                                         *)
 (* Deviations (constant Devs):                                             *)
@@ -35,14 +35,15 @@
 (*        that were vetted by the configured policies.                    *)
 (*   "TlsaFutureShared"  daneDelivery.PrepareConn starts the TLSA lookup  *)
 (*        in a goroutine that stores its result in whatever future the    *)
-(*        delivery object holds WHEN THE LOOKUP FINISHES.  If the attempt *)
-(*        for MX j ends before its lookup has answered (environment fact  *)
-(*        mx[j].slow; the attempt ended in CheckMX of local_policy, in    *)
-(*        connect, or in CheckConn of mtasts), the result for MX j is     *)
-(*        delivered to the future created for the next MX and CheckConn   *)
-(*        vets that MX against the TLSA outcome of the other host.  In    *)
-(*        the design every lookup answers into its own future, so `slow`  *)
-(*        changes nothing.                                                 *)
+(*        delivery object holds WHEN THAT GOROUTINE GETS TO RUN.  If the  *)
+(*        attempt for MX j ends without anybody waiting for the lookup    *)
+(*        (environment fact mx[j].slow: nothing blocks between starting   *)
+(*        it and moving on - MX j is refused by CheckMX of local_policy,  *)
+(*        its connect fails, or CheckConn of mtasts fails), the result    *)
+(*        for MX j may be delivered to the future created for the next MX *)
+(*        (Lookup(i, TRUE)) and CheckConn vets that MX against the TLSA   *)
+(*        outcome of the other host.  In the design every lookup answers  *)
+(*        into its own future (only Lookup(i, FALSE)).                    *)
 (***************************************************************************)
 EXTENDS RemoteObs, TLC, SequencesExt, Json
 
@@ -204,20 +205,30 @@ LookupFail(res) ==
   /\ pc = "nolookup" /\ res = "temp"
   /\ RetAddRcpt(res) /\ EndMsg
 
-CheckMX ==
+(* The TLSA lookup of an earlier MX is still outstanding (mx[j].slow, never waited   *)
+(* for) when dane's PrepareConn runs for MX i.  cross = TRUE: its result is stored   *)
+(* in the future just created for MX i (possible only with the deviation: the         *)
+(* lookup goroutine picks the delivery object's current future when it gets to run); *)
+(* cross = FALSE: it is stored in its own future, which nobody reads any more.        *)
+CheckMXCore(cross) ==
   /\ pc = "mx" /\ mxi <= NMX
   /\ LET r == CheckMXRes(mxi)
          own == cfg.mx[mxi].tlsa IN
        /\ IF r.err # "none"
           THEN lastErr' = r.err /\ mxi' = mxi + 1 /\ UNCHANGED <<pc, lvl, att>>
           ELSE lvl' = r.lvl /\ pc' = "conn" /\ att' = "first" /\ UNCHANGED <<mxi, lastErr>>
-       /\ IF ~r.prep THEN UNCHANGED <<pend, tl>>                   \* dane's PrepareConn not reached
-          ELSE IF "TlsaFutureShared" \in Devs /\ pend # "no"
-               THEN \* the earlier lookup answers into this future; an EE association of
-                    \* the other host cannot match this host's key
-                    tl' = (IF pend = "ee_match" THEN "mismatch" ELSE pend) /\ pend' = "no"
-          ELSE tl' = own /\ pend' = IF cfg.mx[mxi].slow THEN own ELSE pend
+       /\ IF ~r.prep THEN ~cross /\ UNCHANGED <<pend, tl>>          \* dane's PrepareConn not reached
+          ELSE IF cross
+               THEN \* an EE association of the other host cannot match this host's key
+                    /\ "TlsaFutureShared" \in Devs /\ pend # "no"
+                    /\ tl' = (IF pend = "ee_match" THEN "mismatch" ELSE pend) /\ pend' = "no"
+          ELSE tl' = own /\ pend' = IF cfg.mx[mxi].slow THEN own ELSE "no"
   /\ UNCHANGED <<cfg, k, cur, conn, pool, devs, obs, hist>>
+
+Outstanding == pc = "mx" /\ mxi <= NMX /\ pend # "no" /\ CheckMXRes(mxi).prep
+
+CheckMX == ~Outstanding /\ CheckMXCore(FALSE)                       \* silent
+Lookup(i, cross) == Outstanding /\ i = mxi /\ CheckMXCore(cross)    \* observable: where the late answer went
 
 NoMX(res) ==
   /\ pc = "mx" /\ mxi > NMX /\ res = lastErr
@@ -300,6 +311,7 @@ Next ==
   \/ Silent
   \/ \E res \in Classes : RetQuarantine(res) \/ LookupFail(res) \/ NoMX(res) \/ Gate(res) \/ BodyRet(res)
   \/ \E i \in 1..NMX, t \in TLSStates : Connect(i, t) \/ Data(i, t)
+  \/ \E i \in 1..NMX, cross \in BOOLEAN : Lookup(i, cross)
   \/ Finish
   \/ (pc = "end" /\ ~Gen /\ UNCHANGED vars)
 
